@@ -486,7 +486,7 @@ GAP_APIS = ("accept", "recv", "send")     # the calls that park on a Condition u
 class Cell:
     """one fresh connection on which one blocking API (on side X) meets one ending"""
 
-    def __init__(self, api, role="std", pre="fresh"):
+    def __init__(self, api, role="std", pre="fresh", opt="plain"):
         """role 'std': the API's usual side (accept on the server, everything else on the client);
         'swap': the other side (accept on the CLIENT as after request_port_forward, open_channel /
         global_request / renegotiate / channel I/O on the SERVER side)."""
@@ -498,6 +498,7 @@ class Cell:
         self.api = api
         self.role = role
         self.pre = pre
+        self.opt = opt
         self.hold = threading.Event()          # released in cleanup
         self.extra_threads = []
         a, b = LoopSocket(), LoopSocket()
@@ -559,6 +560,11 @@ class Cell:
             # self.chan is the end of the channel that lives on side X
             self.chan, self.schan = (cchan, schan) if self.x is self.tc else (schan, cchan)
             self.apply_pre()
+            # documented non-default states of the channel the call is made on
+            if opt == "fileno":
+                self.chan.fileno()                 # attaches the select()-pipe event to both in-buffers
+            elif opt == "combine-stderr":
+                self.chan.set_combine_stderr(True)
 
     def apply_pre(self):
         """channel pre-state on side X before the call: EOF received from the peer, EOF sent, both"""
@@ -620,6 +626,8 @@ class Cell:
             return self.x.accept(USER_TIMEOUT if tmo else None)
         if api == "recv":
             self.chan.settimeout(USER_TIMEOUT if tmo else None)
+            if variant == 2:
+                return self.chan.recv_stderr(16)
             return self.chan.recv(16)
         if api == "send":
             self.chan.settimeout(USER_TIMEOUT if tmo else None)
@@ -689,6 +697,13 @@ class Cell:
 
     def cleanup(self):
         self.hold.set()
+        for ch in (self.chan, self.schan):
+            try:
+                if ch is not None and ch._pipe is not None:
+                    ch._pipe.close()               # the descriptors fileno() created
+                    ch._pipe = None
+            except Exception:
+                pass
         for s in (self.sa, self.sb):
             s.paused = False
         for t in (self.tc, self.ts):
@@ -740,16 +755,21 @@ CHAN_APIS = ("recv", "send", "exit_status", "chan_request")
 PRES = ("fresh", "eof-recv", "eof-sent", "both")
 
 
-def run_cell(api, ending, phase, tmo, role="std", pre="fresh"):
+OPTS = ("plain", "fileno", "combine-stderr")
+
+
+def run_cell(api, ending, phase, tmo, role="std", pre="fresh", opt="plain"):
     """Returns (outcome, detail): outcome 'returned' | 'raised' | 'hang' | 'setup-failed'.
     In the 'before' and 'during' phases the APIs of MULTI_APIS are parked by TWO threads at once on the
     same object (send: sendall + sendall_stderr); all of them must come back."""
     try:
-        cell = Cell(api, role, pre)
+        cell = Cell(api, role, pre, opt)
     except Exception as e:   # noqa
         return "setup-failed", repr(e)
     try:
         nwait = 2 if (phase in ("before", "during") and api in MULTI_APIS) else 1
+        if nwait == 2 and api == "recv":
+            nwait = 3                   # recv twice on the stdout buffer + recv_stderr on the stderr buffer
         boxes = [{} for _ in range(nwait)]
 
         def target(i):
@@ -814,8 +834,8 @@ def run_cell(api, ending, phase, tmo, role="std", pre="fresh"):
                 t.join(max(0.0, end - time.time()))
         alive = sum(t.is_alive() for t in ths)
         if alive:
-            return "hang", "%d of %d thread(s) still blocked %ss after %s (channel pre-state %s)" % (
-                alive, nwait, WATCH, ending, pre)
+            return "hang", "%d of %d thread(s) still blocked %ss after %s (channel pre-state %s, option %s)" % (
+                alive, nwait, WATCH, ending, pre, opt)
         if "e" in box:
             return "raised", blocked + type(box["e"]).__name__
         v = box.get("v")
@@ -883,6 +903,9 @@ def all_cells():
     # channel pre-states: the peer's EOF already received, our EOF already sent, both
     cells = [c + ("fresh",) for c in cells] + \
             [c + (pre,) for c in cells if c[0] in CHAN_APIS and c[2] != "gap" for pre in PRES[1:]]
+    # channel options: fileno() called before (event attached to the in-buffers), combine_stderr on
+    cells = [c + ("plain",) for c in cells] + \
+            [c + (opt,) for c in cells if c[0] in CHAN_APIS and c[5] == "fresh" for opt in OPTS[1:]]
     return cells
 
 
@@ -890,7 +913,9 @@ def part_matrix(ctx):
     rng = ctx.rng
     cells = all_cells()
     must = [c for c in cells if (c[0] == "accept" and c[1] in ("local-close", "peer-close") and not c[3])
-            or (c[2] == "gap" and (c[4] == "std" or c[0] == "accept"))]
+            or (c[2] == "gap" and c[6] == "plain" and (c[4] == "std" or c[0] == "accept"))
+            or (c[0] == "recv" and c[6] == "fileno" and c[2] == "before" and c[4] == "std" and not c[3]
+                and c[1] in ("local-close", "socket-eof"))]
     if not ctx.thorough:
         # representative subset: all formerly failing accept cells, and for every API x ending one
         # randomly chosen (phase, timeout) -- so every API meets every ending and every phase occurs
@@ -900,7 +925,8 @@ def part_matrix(ctx):
         seen = set()
         phase_count = {}
         for c in rest:
-            if c[5] == "fresh" and (c[0], c[1], c[4]) not in seen and applicable(c[0], c[1], c[2]):
+            if c[5] == "fresh" and c[6] == "plain" and (c[0], c[1], c[4]) not in seen \
+                    and applicable(c[0], c[1], c[2]):
                 seen.add((c[0], c[1], c[4]))
                 pick.append(c)
         seen_pre = set()
@@ -909,9 +935,15 @@ def part_matrix(ctx):
                     and (c[0], c[5], c[2]) not in seen_pre:
                 seen_pre.add((c[0], c[5], c[2]))
                 pick.append(c)
+        seen_opt = set()
+        for c in rest:                       # every channel API x option: blocked before AND called after
+            if c[6] != "plain" and c[4] == "std" and c[2] in ("before", "after") \
+                    and (c[0], c[6], c[2]) not in seen_opt:
+                seen_opt.add((c[0], c[6], c[2]))
+                pick.append(c)
         for c in rest:                       # ... and every API (in its usual role) in every phase
-            if c not in pick and c[4] == "std" and c[5] == "fresh" \
-                    and (c[0], c[2]) not in {(q[0], q[2]) for q in pick if q[4] == "std" and q[5] == "fresh"} \
+            if c not in pick and c[4] == "std" and c[5] == "fresh" and c[6] == "plain" \
+                    and (c[0], c[2]) not in {(q[0], q[2]) for q in pick if q[4] == "std" and q[5] == "fresh" and q[6] == "plain"} \
                     and applicable(c[0], c[1], c[2]):
                 pick.append(c)
         cells = pick
@@ -983,14 +1015,15 @@ def part_matrix(ctx):
     keys = []
     outcomes = {}
     for c in sorted(results):
-        api, ending, phase, tmo, role, pre = c
+        api, ending, phase, tmo, role, pre, opt = c
         out, detail = results[c]
         if out == "n/a":
             continue
         side = side_of(api, role)
         tag = api if role == "std" else "%s@%s" % (api, side)
         ctx.count(c, kind="matrix-%s-%s%s%s" % (ending, phase, "" if role == "std" else "-otherside",
-                                                 "" if pre == "fresh" else "-" + pre))
+                                                 ("" if pre == "fresh" else "-" + pre) +
+                                                 ("" if opt == "plain" else "-" + opt)))
         outcomes.setdefault("%s/%s" % (out, detail), 0)
         outcomes["%s/%s" % (out, detail)] += 1
         if out == "setup-failed":
@@ -1005,8 +1038,9 @@ def part_matrix(ctx):
                      "%s on the %s transport is still blocked %ss after the connection ended by %s" % (
                          api, side, WATCH, ending),
                      case={"api": api, "ending": ending, "phase": phase, "timeout": tmo, "role": role,
-                           "side": side, "channel_pre_state": pre,
-                           "threads_parked": 2 if (phase in ("before", "during") and api in MULTI_APIS) else 1},
+                           "side": side, "channel_pre_state": pre, "channel_option": opt,
+                           "threads_parked": (3 if api == "recv" else 2)
+                           if (phase in ("before", "during") and api in MULTI_APIS) else 1},
                      expected="returns or raises promptly", observed=detail)
         # a call that outlives the connection must not pretend success
         if returned and api in ("open_channel", "auth", "chan_request", "start_client", "start_server",
@@ -1019,7 +1053,7 @@ def part_matrix(ctx):
     bad = safe_mismatches(ctx, "run_cell", "(Z * Z * bool * Z)", model_cases)
     for i in bad[:5]:
         ctx.disagree("cell outcome differs from the wake-graph model's prediction",
-                     case=dict(zip(("api", "ending", "phase", "timeout", "role", "pre"), keys[i])), model="returns",
+                     case=dict(zip(("api", "ending", "phase", "timeout", "role", "pre", "opt"), keys[i])), model="returns",
                      impl=results[keys[i]])
     for c in keys[:2]:
         ctx.sample({"matrix": {"cell": c, "impl": results[c], "model": "returns"}})
@@ -1040,7 +1074,9 @@ def run(ctx):
                 "exit_status/open_channel/global_request/send_ignore are parked by TWO threads at once on the same "
                 "object (send: sendall + sendall_stderr) and all must return; every cell also on the other side of "
                 "the connection where the API exists there; channel APIs additionally from the channel pre-states "
-                "{peer EOF received, EOF sent, both} (blocked before and called after) on fresh in-process Transport pairs (quick: every API x ending and API x phase once + all accept and forced-interleaving cells; "
+                "{peer EOF received, EOF sent, both} (blocked before and called after) and with the documented "
+                "non-default channel options {fileno() called before = event attached to the in-buffers, "
+                "combine_stderr on}; recv is parked by three threads (recv x2 + recv_stderr) on fresh in-process Transport pairs (quick: every API x ending and API x phase once + all accept and forced-interleaving cells; "
                 "thorough: all cells), watchdog %ss, one retry before a hang is believed.  A case is non-trivial "
                 "when distinct and its script / cell is not empty." % WATCH)
     ctx.trusted += ["translator gen/c13.py (AST -> wake graph), fail-closed on unrecognised statements",
@@ -1062,7 +1098,7 @@ def replay(ctx, rep):
     if "api" in case and "phase" in case:
         ctx.prove()
         c = (case["api"], case["ending"], case["phase"], bool(case.get("timeout")), case.get("role", "std"),
-             case.get("channel_pre_state", "fresh"))
+             case.get("channel_pre_state", "fresh"), case.get("channel_option", "plain"))
         r = run_cell(*c)
         if r[0] == "hang":
             r = run_cell(*c)
